@@ -3,8 +3,10 @@
 (* State machine of the panic catcher (property C19), N threads.           *)
 (*                                                                         *)
 (* Each thread runs a script: a sequence over                              *)
-(*   enable  disable  enter  ret  panic  sethook  cont  bt                 *)
-(* where enter/ret bracket a catch_panic(|| ...) body.  One script step is *)
+(*   enable  disable  enter  genter  ret  panic  sethook  cont  bt         *)
+(* where enter/ret bracket a catch_panic(|| ...) body (genter: a body that *)
+(* owns a clean-up guard which itself calls catch_panic when the frame is  *)
+(* left, also in the middle of unwinding - see WfPanicSeq).  One script step is *)
 (* one atomic step of that thread (all catcher state except the "hook      *)
 (* installed" flag is thread-local).                                       *)
 (*                                                                         *)
@@ -38,8 +40,8 @@ MatchRet(t, i) == MatchFrom(Scripts[t], i + 1, 0)
 (* still open at the end are closed by appended returns (so a script of MaxLen written steps may nest MaxLen   *)
 (* frames deep, e.g. enable, enter, disable, enter, panic)                                                     *)
 PrefixOK(s) == \A j \in 1..Len(s) :
-                 Cardinality({x \in 1..j : s[x] = "ret"}) <= Cardinality({x \in 1..j : s[x] = "enter"})
-Opens(s) == Cardinality({x \in 1..Len(s) : s[x] = "enter"}) - Cardinality({x \in 1..Len(s) : s[x] = "ret"})
+                 Cardinality({x \in 1..j : s[x] = "ret"}) <= Cardinality({x \in 1..j : IsEnter(s[x])})
+Opens(s) == Cardinality({x \in 1..Len(s) : IsEnter(s[x])}) - Cardinality({x \in 1..Len(s) : s[x] = "ret"})
 Close(s) == s \o [i \in 1..Opens(s) |-> "ret"]
 (* (with several threads, where every interleaving is explored, only the scripts that are balanced as written) *)
 ScriptSet == IF Cardinality(Threads) = 1
@@ -71,14 +73,15 @@ PanicStep(t) ==
      /\ IF C = {}
         THEN \* nothing catches: the panic escapes the thread
              /\ status' = [status EXCEPT ![t] = "escaped"]
-             /\ obs' = [obs EXCEPT ![t] = Append(@, [k |-> "escaped", m |-> m])]
+             /\ obs' = [obs EXCEPT ![t] = (@ \o GuardObs(fs, 1, Len(fs))) \o <<[k |-> "escaped", m |-> m]>>]
              /\ frames' = [frames EXCEPT ![t] = <<>>]
              /\ UNCHANGED <<pc, level>>
         ELSE LET i == CHOOSE x \in C : \A y \in C : y <= x IN      \* innermost catching frame
              /\ frames' = [frames EXCEPT ![t] = SubSeq(fs, 1, i - 1)]
              /\ level' = [level EXCEPT ![t] = @ - 1]
              \* catch_panic returns Err(text of the last recorded message)
-             /\ obs' = [obs EXCEPT ![t] = Append(@, [k |-> "err", m |-> (IF caught THEN m ELSE bt[t])])]
+             \* (the guards of the frames unwound run first, innermost first: nested catch_panic calls that return normally)
+             /\ obs' = [obs EXCEPT ![t] = (@ \o GuardObs(fs, i, Len(fs))) \o <<[k |-> "err", m |-> (IF caught THEN m ELSE bt[t])]>>]
              /\ pc' = [pc EXCEPT ![t] = fs[i].retpc + 1]
              /\ UNCHANGED status
      /\ UNCHANGED enabled
@@ -93,15 +96,15 @@ Step(t) ==
           /\ UNCHANGED <<sent, status>>
           /\ IF o = "enable" THEN enabled' = [enabled EXCEPT ![t] = TRUE] /\ UNCHANGED <<frames, level, bt, obs>>
              ELSE IF o = "disable" THEN enabled' = [enabled EXCEPT ![t] = FALSE] /\ UNCHANGED <<frames, level, bt, obs>>
-             ELSE IF o = "enter"
-                  THEN /\ frames' = [frames EXCEPT ![t] = Append(@, [catching |-> enabled[t], retpc |-> MatchRet(t, pc[t])])]
+             ELSE IF IsEnter(o)
+                  THEN /\ frames' = [frames EXCEPT ![t] = Append(@, [catching |-> enabled[t], retpc |-> MatchRet(t, pc[t]), guard |-> (o = "genter")])]
                        /\ level' = IF enabled[t] THEN [level EXCEPT ![t] = @ + 1] ELSE level
                        /\ UNCHANGED <<enabled, bt, obs>>
              ELSE IF o = "ret"
                   THEN LET f == frames[t][Len(frames[t])] IN
                        /\ frames' = [frames EXCEPT ![t] = SubSeq(@, 1, Len(@) - 1)]
                        /\ level' = IF f.catching THEN [level EXCEPT ![t] = @ - 1] ELSE level
-                       /\ obs' = [obs EXCEPT ![t] = Append(@, [k |-> "ok", m |-> 0])]
+                       /\ obs' = [obs EXCEPT ![t] = (@ \o (IF f.guard THEN <<GOk>> ELSE <<>>)) \o <<[k |-> "ok", m |-> 0]>>]
                        /\ UNCHANGED <<enabled, bt>>
              ELSE IF o = "bt"
                   THEN /\ obs' = [obs EXCEPT ![t] = Append(@, [k |-> "bt", m |-> bt[t]])]
